@@ -717,7 +717,7 @@ impl Decode for Compact<$T> {
     open spec fn dec_bytes(v: &Self) -> Seq<u8> { compact(v.0 as nat) }
     open spec fn need_depth(b: Seq<u8>) -> nat { 0 }
     proof fn law_bound(b: Seq<u8>) { reveal(compact_dec); }
-    #[verifier::rlimit(300)]
+    #[verifier::rlimit(40)]
     #[verifier::spinoff_prover]
     //@fn compact.$T.decode :: compact | impl Decode for Compact<$T> | decode
     //@ ret r
